@@ -264,7 +264,7 @@ def main(argv):
         except ImportError:
             search = None
         if search is not None:
-            bad += search.selftest(quick=(what == "all"))
+            bad += search.selftest(quick=(len(argv) > 1 and argv[1] == "quick"))
     if what in ("determinism", "all"):
         bad += test_determinism(argv[1:] or None)
     print("selftest", "OK" if not bad else f"FAILED ({bad})")
